@@ -401,10 +401,12 @@ def d3(repo, res):
     for n in ast.walk(gfn):
         if isinstance(n, ast.Assign) and len(n.targets) == 1 and isinstance(n.targets[0], ast.Name):
             gdefs.setdefault(n.targets[0].id, []).append(n.value)
-    grets = [r for r in ast.walk(gfn) if isinstance(r, ast.Return) and isinstance(r.value, ast.Tuple) and len(r.value.elts) >= 2]
+    from repo import ret_value
+    grets = [ret_value(gfn, r) for r in ast.walk(gfn) if isinstance(r, ast.Return)]
+    grets = [v for v in grets if isinstance(v, ast.Tuple) and len(v.elts) >= 2]
     okc, detail = bool(grets), {}
-    for r in grets:
-        a, b = r.value.elts[0], r.value.elts[1]
+    for rv in grets:
+        a, b = rv.elts[0], rv.elts[1]
 
         def one(e):
             if isinstance(e, ast.Name) and len(gdefs.get(e.id, [])) == 1:
